@@ -218,7 +218,11 @@ class MPSBackendImpl:
         # has_state_preparation_error
         if self.pulser_data.state_prep_error > 0.0:
             bad_atoms = self.pulser_data.bad_atoms
-            self.well_prepared_qubits_filter = torch.logical_not(torch.tensor(bad_atoms))
+            # bad_atoms follows the register order; everything it filters
+            # (drives, interaction matrix, MPS/MPO factors) is in MPS site order.
+            self.well_prepared_qubits_filter = torch.logical_not(
+                torch.tensor(bad_atoms)
+            )[self.qubit_permutation]
         else:
             self.well_prepared_qubits_filter = None
         logging.getLogger("emulators").debug(
